@@ -105,13 +105,13 @@ Definition is_body (o : op) : bool := match o with OWrite _ | OFlush => true | _
 Definition writes (s : list op) : list bytes :=
   flat_map (fun o => match o with OWrite b => [b] | _ => [] end) s.
 
-(* a handler that sets its headers first, then calls WriteHeader at most once (before any
-   Write/Flush), then only writes and flushes *)
+(* a handler that sets its headers first, then starts the response in any of the three ways
+   (WriteHeader, Write, Flush), then only writes and flushes *)
 Fixpoint wb (s : list op) : bool :=
   match s with
   | [] => true
   | o :: r => if is_hdr o then wb r
-              else match o with OWriteHeader _ | OWrite _ => forallb is_body r | _ => false end
+              else forallb is_body r
   end.
 
 (* ---------- net/http's response writer, as far as it matters here ---------- *)
@@ -256,11 +256,16 @@ Definition g_with_u (f : uw -> uw) (g : gst) : gst :=
   {| g_u := f (g_u g); g_rfw := g_rfw g; g_should := g_should g; g_gzw := g_gzw g;
      g_active := g_active g; g_ws := g_ws g |}.
 
+(* ResponseFilterWriter.Flush: WriteHeader(200) first if the header is not written yet, then the
+   wrapped writer's Flush *)
+Definition rf_flush (c : gcfg) (g : gst) : gst :=
+  g_with_u (uw_commit 200) (if g_rfw g then g else rf_write_header c 200 g).
+
 Definition gstep (c : gcfg) (g : gst) (o : op) : gst :=
   match o with
   | OWriteHeader code => rf_write_header c code g
   | OWrite b => rf_write c b g
-  | OFlush => g_with_u (uw_commit 200) g      (* Flush is inherited from the wrapped writer *)
+  | OFlush => rf_flush c g
   | _ => g_with_u (uw_sethdr (hdr_fun o)) g
   end.
 Definition g0 : gst := {| g_u := u0; g_rfw := false; g_should := false; g_gzw := false; g_active := false; g_ws := [] |}.
